@@ -96,6 +96,15 @@ CHECKS["C15"] = dict(
     note="NOT decided: the per-codec round-trip / random-access / byte-serialisation laws over all input sequences (pure functions of the input; property-based testing territory). CompressionMode is not exported, so Auto/Eager thresholds are unreachable from outside the crate.",
 )
 
+CHECKS["C07"] = dict(
+    engine="SNAP",
+    technique="deterministic simulation with stored-byte faults: source graphs reached by seeded mutation histories, copied through every route (export/import, save/open on tmpfs, to_memory, open_in_memory) and compared with a reference graph; every truncation and seeded single-bit flips of the exported blob fed to import and judged against an independent decode of the same bytes",
+    category="exploration",
+    text="Seeded search (6k quick / 400k thorough): copy == reference graph through iteration, point lookups and fixed queries; source unchanged; export deterministic; damaged blobs never panic the importer and never yield a partially filled database.",
+    design_ref="DESIGN.md §3 C07",
+    note="A damaged blob that still decodes as a version-1 snapshot counts as valid. wasm wrapper not covered.",
+)
+
 NOT_APPLICABLE = {
     "C08": "pure function of (graph, query text): no schedule, clock, I/O, fault or shared state in the statement or its quantifier; differential/reference-interpreter testing is the fitting family, not simulation",
     "C09": "pure function of (graph, statistics state, query, optimizer switches); stale statistics are an input, not a schedule",
@@ -125,6 +134,7 @@ manifest = {
         {"name": "HIST", "path": "sim/src/eng_hist.rs", "serves_properties": ["C01", "C02", "C03"], "kind_free_text": "multi-session history simulator: working tree, RefMvcc specification and the pinned twin (/verif/pinned) in lock-step"},
         {"name": "RDF", "path": "sim/src/eng_rdf.rs", "serves_properties": ["C13"], "kind_free_text": "history simulator over RdfStore / SPARQL templates with a set model"},
         {"name": "CODEC", "path": "sim/src/eng_codec.rs", "serves_properties": ["C15"], "kind_free_text": "history simulator over PropertyStorage and ChunkedAdjacency with map models"},
+        {"name": "SNAP", "path": "sim/src/eng_snap.rs", "serves_properties": ["C07"], "kind_free_text": "copy routes over history-built graphs; byte faults on the snapshot blob"},
         {"name": "SCHED", "path": "sim/src/eng_sched.rs", "serves_properties": ["C20", "C03", "C13"], "kind_free_text": "shuttle-scheduled simulated threads over the real stores/managers via the parking_lot lock seam (shims/parking_lot) and hooked atomics"},
         {"name": "DISK", "path": "sim/src/eng_disk.rs", "serves_properties": ["C05", "C06"], "kind_free_text": "persistent GrafeoDB over a tapped tmpfs directory + simulated clock; crash images computed from the disk-event log"},
     ],
